@@ -805,6 +805,79 @@ fn contract(inst: &str, hist: &[Value]) -> (Vec<Value>, Value) {
     (with_deps, deps_json(&at(hist.len(), true)))
 }
 
+/// The property (C23 / C24) on one cell, judged on the dependency sets the real queue reported: every
+/// conflicting pair of accesses of different nodes is ordered (possibly transitively) by the reported
+/// dependencies; every reported dependency is the initial writer or an earlier, conflicting access of that
+/// node under its own type; nodes that only read, with no write between their reads, are not ordered.
+/// (spec: QConflictsOrderedOf, QDepsJustifiedOf, QReadsUnorderedOf in DepQueue.tla.)  Used to classify a
+/// difference from the model's exact sets as violation or mere divergence.
+pub fn queue_property_failures(inst: &str, hist: &[Value], rep: &[BTreeSet<(u64, String)>]) -> Vec<String> {
+    let is_w = |h: &Value| matches!(s(h, "k").as_str(), "Write" | "Capture" | "Using");
+    let node = |h: &Value| util::u(h, "n");
+    let mut fails = vec![];
+    // justified
+    for (p, h) in hist.iter().enumerate() {
+        for (dn, dt) in &rep[p] {
+            let initial = inst == "frame" && *dn == 0 && dt == "Node";
+            let ok = initial
+                || (0..p).any(|q| {
+                    node(&hist[q]) == *dn
+                        && (is_w(&hist[q]) || is_w(h))
+                        && *dt == if inst == "frame" { "Node".to_string() } else { s(&hist[q], "k") }
+                });
+            if !ok {
+                fails.push(format!("access {} ({} by node {}): dependency on ({dn}, {dt}) is not justified by an earlier conflicting access", p + 1, s(h, "k"), node(h)));
+            }
+        }
+    }
+    // edges between distinct nodes, reachability
+    let mut succ: BTreeMap<u64, BTreeSet<u64>> = BTreeMap::new();
+    for (p, h) in hist.iter().enumerate() {
+        for (dn, _) in &rep[p] {
+            if *dn != node(h) {
+                succ.entry(*dn).or_default().insert(node(h));
+            }
+        }
+    }
+    let reach = |a: u64| -> BTreeSet<u64> {
+        let mut seen: BTreeSet<u64> = BTreeSet::new();
+        let mut todo = vec![a];
+        while let Some(x) = todo.pop() {
+            if let Some(ns) = succ.get(&x) {
+                for y in ns {
+                    if seen.insert(*y) {
+                        todo.push(*y);
+                    }
+                }
+            }
+        }
+        seen
+    };
+    for p in 0..hist.len() {
+        let r = reach(node(&hist[p]));
+        for q in p + 1..hist.len() {
+            if node(&hist[q]) != node(&hist[p]) && (is_w(&hist[p]) || is_w(&hist[q])) && !r.contains(&node(&hist[q])) {
+                fails.push(format!("accesses {} and {} conflict but node {} does not depend on node {}", p + 1, q + 1, node(&hist[q]), node(&hist[p])));
+            }
+        }
+    }
+    // reads unordered
+    let only_reads = |n: u64| hist.iter().all(|h| node(h) != n || !is_w(h));
+    for p in 0..hist.len() {
+        if !only_reads(node(&hist[p])) {
+            continue;
+        }
+        let r = reach(node(&hist[p]));
+        for q in 0..hist.len() {
+            let (lo, hi) = if p < q { (p, q) } else { (q, p) };
+            if node(&hist[q]) != node(&hist[p]) && only_reads(node(&hist[q])) && (lo..=hi).all(|m| !is_w(&hist[m])) && r.contains(&node(&hist[q])) {
+                fails.push(format!("reads {} and {} with no write between them are ordered", p + 1, q + 1));
+            }
+        }
+    }
+    fails
+}
+
 pub fn replay_queue(_ctx: &Ctx, case: &Value) -> Outcome {
     // a violation replay file from trace validation carries the recorded history: re-run it, judged by `contract`
     let from_history = case.get("history").map(|h| {
@@ -823,15 +896,23 @@ pub fn replay_queue(_ctx: &Ctx, case: &Value) -> Outcome {
         }
         let want = dep_set(&h["deps"]);
         if rep[p] != want {
-            o.violate(Violation::new("dependencies reported by the queue", deps_json(&want), deps_json(&rep[p]))
-                .note(format!("{inst} queue, access {} ({} by node {})", p + 1, s(h, "k"), h["n"])));
+            // the exact sets are the model of the queue as built; the property is judged on what was reported
+            let fails = queue_property_failures(&inst, &hist, &rep);
+            if fails.is_empty() {
+                o.diverge(format!("{inst} queue, access {} ({} by node {}): reported {} differs from the model's {} but orders every conflicting pair and reports only justified dependencies",
+                    p + 1, s(h, "k"), h["n"], deps_json(&rep[p]), deps_json(&want)));
+            } else {
+                o.violate(Violation::new("dependencies reported by the queue", deps_json(&want), deps_json(&rep[p]))
+                    .note(format!("{inst} queue, access {} ({} by node {}): {}", p + 1, s(h, "k"), h["n"], fails.join("; "))));
+            }
             return o;
         }
     }
     if let Some(w) = case.get("pending") {
         let want = dep_set(w);
         if pend != want {
-            o.violate(Violation::new("pending dependencies of the queue", deps_json(&want), deps_json(&pend)).note(format!("{inst} queue")));
+            // not an observable of C23/C24 (the link to the block end is judged on real graphs by C22)
+            o.diverge(format!("{inst} queue: pending dependencies {} differ from the model's {}", deps_json(&pend), deps_json(&want)));
         }
     }
     o
